@@ -957,17 +957,35 @@ def check_engine(fl, rng, verdict, tb, e, d, meta, stats, cases, index):
                     violation(sig, f"representable engine and its re-import compute different outputs on {where} (decimals={d}, {meta}): {str(oa[k])[:100]} vs {str(ob[k])[:100]}", {"rows": rows, "first_differing": where})
                 if any(o[0] == "ok" for o in oa):
                     stats["processed_ok"] += 1
-            else:
-                # whatever the rounding does to the values, an input on which the original computes outputs must not make
-                # the re-imported engine raise (e.g. a term that lost its reference to the engine)
-                rows = input_rows(e, rng)
-                oa, ob = outcome(e, rows), outcome(e2, rows)
-                stats["free_engines_processed"] = stats.get("free_engines_processed", 0) + 1
-                bad = [(k, x, y) for k, (x, y) in enumerate(zip(oa, ob)) if x[0] == "ok" and y[0] == "err"]
-                if bad:
-                    k, x, y = bad[0]
-                    sig = "fll:function-variables-lost" if fvars else "fll:reimport-raises"
-                    violation(sig, f"the original engine computes outputs, the re-imported engine raises {y[1]} ({'batch of all rows' if k == 0 else 'row ' + str(rows[k - 1])}; decimals={d}, {meta})", {"rows": rows})
+            # term level, every engine: with the inputs set, a term on which the original evaluates must evaluate after the
+            # import too (a Function / Linear term that lost its reference to the engine raises).  Rounding cannot turn a
+            # value into an exception at this level, so the check does not depend on representability.
+            trows = input_rows(e, rng, n=3)
+            done = False
+            for row in trows:
+                for eng in (e, e2):
+                    for var, x in zip(eng.input_variables, row):
+                        var.value = float(x)
+                for va, vb in zip(list(e.input_variables) + list(e.output_variables), list(e2.input_variables) + list(e2.output_variables)):
+                    x = float(va.value) if not hasattr(va, "defuzzifier") else 0.5     # the variable's own input value
+                    for ta, tb_ in zip(va.terms, vb.terms):
+                        stats["term_evaluations"] = stats.get("term_evaluations", 0) + 1
+                        try:
+                            with warnings.catch_warnings(), np.errstate(all="ignore"):
+                                warnings.simplefilter("ignore")
+                                ta.membership(x)
+                        except Exception:
+                            continue
+                        try:
+                            with warnings.catch_warnings(), np.errstate(all="ignore"):
+                                warnings.simplefilter("ignore")
+                                tb_.membership(x)
+                        except Exception as ex:
+                            if not done:
+                                done = True
+                                sig = "fll:function-variables-lost" if (type(ta).__name__ == "Function" and ta.variables) else "fll:term-raises-after-import"
+                                violation(sig, f"term `{exp.term(ta)}` of variable {va.name} evaluates in the original engine at x={x} with inputs {row}, "
+                                               f"and raises {type(ex).__name__}: {str(ex)[:120]} in the re-imported engine (decimals={d}, {meta})", {"rows": [row], "term": exp.term(ta)})
         # correspondence cases: the export itself, then variants of the text
         if ascii_ok(t1):
             cases.append(case_literal(fl, d, tb, e, t1, expected_lit, e2))
@@ -1099,7 +1117,7 @@ def run(ctx, build, verdict, ev):
                          "model_cases": len(cases), "violations_by_signature": stats["violations"],
                          "rows_where_the_original_raises_but_the_reimport_computes (float vs numpy.float64 parameters)": stats.get("original_raises_reimport_computes", 0),
                          "rejection_variants_accepted_by_the_importer": stats.get("variant_unexpectedly_accepted", 0),
-                         "free_engines_processed (original ok => re-import must not raise)": stats.get("free_engines_processed", 0),
+                         "term_evaluations (original evaluates => re-imported term must not raise)": stats.get("term_evaluations", 0),
                          "correspondence_only_probes (height attribute set on Constant/Linear/Function)": stats.get("correspondence_only_probes", 0),
                          "probe_outcomes": stats.get("probe_outcomes", {}),
                          "component_configure_checks (configure(parameters()) on an object with stale state)": dict(sorted(stats["component_checks"].items()))}
